@@ -4,6 +4,8 @@ import Isotp.Layer
 /-!
   Source agreement for `TransportLayerLogic._process_tx` (isotp/protocol.py), FOR ALL STATES, region by region.
 -/
+set_option linter.unusedSimpArgs false
+
 namespace Isotp.PyAgree.Tx
 open Isotp Isotp.Py Isotp.PyAgree
 
@@ -487,6 +489,11 @@ theorem Rep.startCf (hR : Rep env s) :
   rep_upd hR
   rfl
 
+theorem trigP_rep (hR : Rep env s) (e : Err) :
+    trigP s.now (errCode e) env =
+      .ok (env.set "#log" (.list (histOf s.log ++ [.py (.int 0), .py (.int s.now), .py (.int (errCode e))]))) := by
+  simp [trigP, hR.log]
+
 /-- `_trigger_error(e)` -/
 theorem Rep.error (hR : Rep env s) (e : Err) :
     Rep (env.set "#log" (.list (histOf s.log ++ [.py (.int 0), .py (.int s.now), .py (.int (errCode e))]))) (s.error e) :=
@@ -554,6 +561,87 @@ theorem stopP_rep (hR : Rep env s) (ok : Bool) (xs : List String) :
     · exact (((Frame.refl xs env).set (.inl (by decide)) _).set (.inl (by decide)) _).trans (frame_stopCore xs _)
 
 end stop
+
+/-! ### the generator -/
+
+section gen
+variable {env : Env} {r : Req}
+
+theorem genDepleted_rep (h : ReqRep env r) : genDepleted env = .ok (pbool r.depleted) := by
+  have e : ((r.size : Int) - (r.consumed : Int) ≤ 0) ↔ r.size ≤ r.consumed := by omega
+  simp [genDepleted, h.size, h.consumed, h.depl, Req.depleted, e]
+
+theorem genRemaining_int (h : ReqRep env r) : genRemaining env = .ok (pint ((r.size : Int) - r.consumed)) := by
+  simp [genRemaining, h.size, h.consumed]
+
+theorem genRemaining_rep (h : ReqRep env r) (hle : r.consumed ≤ r.size) : genRemaining env = .ok (pint r.remaining) := by
+  rw [genRemaining_int h, Req.remaining]; congr 2; omega
+
+theorem genTotal_rep (h : ReqRep env r) : genTotal env = .ok (pint r.size) := by
+  simp [genTotal, h.size]
+
+theorem reqOf_rep (h : ReqRep env r) : reqOf env = some r := by
+  obtain ⟨id, size, src, consumed, depletedFlag, tat, instr⟩ := r
+  cases tat <;> simp [reqOf, h.size, h.consumed, h.depl, h.src, h.id, h.instr, h.tat, tatPV]
+
+theorem consume_fields (r : Req) (n : Nat) (exact : Bool) :
+    (r.consume n exact).1.id = r.id ∧ (r.consume n exact).1.size = r.size ∧ (r.consume n exact).1.tat = r.tat ∧
+    (r.consume n exact).1.instr = r.instr := by
+  unfold Req.consume
+  simp only
+  split
+  · exact ⟨rfl, rfl, rfl, rfl⟩
+  · split
+    · split <;> exact ⟨rfl, rfl, rfl, rfl⟩
+    · exact ⟨rfl, rfl, rfl, rfl⟩
+
+end gen
+
+/-! ### `consume` -/
+
+section consume
+variable {env : Env} {s : State} {r : Req}
+
+theorem consumeP_none (hR : Rep env s) (ha : s.active = some r) (n : Nat) (exact : Bool)
+    (hn : (r.consume n exact).2 = none) :
+    consumeP n exact env = .error (.unsupported "raise BadGeneratorError") := by
+  simp [consumeP, reqOf_rep (hR.req r ha), hR.log, hn]
+
+theorem consumeP_some (hR : Rep env s) (ha : s.active = some r) (n : Nat) (exact : Bool) (data : Bytes)
+    (hn : (r.consume n exact).2 = some data) :
+    ∃ env', consumeP n exact env = .ok env' ∧ Rep env' (s.consumeActive r n exact).1 ∧
+      env' "payload" = some (.bytes data) ∧ Frame ["payload"] env env' := by
+  obtain ⟨f1, f2, f3, f4⟩ := consume_fields r n exact
+  have hq := hR.req r ha
+  refine ⟨?e, ?h1, ?h2, ?h3, ?h4⟩
+  case h1 =>
+    simp [consumeP, reqOf_rep hq, hR.log, hn]
+    rfl
+  case h3 => simp [set_get]
+  case h4 =>
+    exact (((((Frame.refl _ env).set (.inl (by decide)) _).set (.inl (by decide)) _).set (.inl (by decide)) _).set
+      (.inl (by decide)) _).set (.inr (by decide)) _
+  case h2 =>
+    have hc := hR.consts
+    unfold State.consumeActive
+    simp only
+    cases hq
+    cases hR
+    constructor
+    case req =>
+      intro r' hr'
+      simp only [Option.some.injEq] at hr'
+      subst hr'
+      constructor <;> simp [set_get, *]
+    case consts => exact ((((hc.set (by decide) _).set (by decide) _).set (by decide) _).set (by decide) _).set (by decide) _
+    case log =>
+      by_cases hp : (r.instr && decide ((r.consume n exact).1.consumed - r.consumed > 0)) = true
+      · simp only [Bool.and_eq_true, decide_eq_true_eq] at hp
+        simp [set_get, *, State.emit, histOf, encEv]
+      · simp only [Bool.and_eq_true, decide_eq_true_eq] at hp
+        simp [set_get, *]
+    all_goals (split <;> simp [set_get, *, State.emit, objPV])
+end consume
 
 /-! ### the primitives, by name (proved once by `rfl`: the string `match` of `txFn` / `txProc` is never unfolded by `simp`) -/
 
@@ -624,14 +712,14 @@ theorem proc_st_set_timeout (n : Nat) :
        else .error (.unsupported "set_timeout of a float that is not a nanosecond count")) := rfl
   rw [e]; simp
 theorem proc_stop (ok : Bool) : (txMeths c a now rl).proc "self._stop_sending#success" [pbool ok] env = stopP ok env := rfl
-theorem proc_consume (n : Nat) (exact : Bool) :
+theorem proc_consume (n : Int) (exact : Bool) :
     (txMeths c a now rl).proc "payload:=self.active_send_request.generator.consume#enforce_exact" [pint n, pbool exact] env =
       consumeP n exact env := rfl
 theorem proc_start_fc : (txMeths c a now rl).proc "self._start_rx_fc_timer" [] env =
     .ok ((env.set "self.timer_rx_fc.start_time" (pint now)).set "self.timer_rx_fc.timeout" (pint c.tFc)) := rfl
 theorem proc_start_cf : (txMeths c a now rl).proc "self._start_rx_cf_timer" [] env =
     .ok ((env.set "self.timer_rx_cf.start_time" (pint now)).set "self.timer_rx_cf.timeout" (pint c.tCf)) := rfl
-theorem proc_trigger (code : Nat) :
+theorem proc_trigger (code : Int) :
     (txMeths c a now rl).proc "self._trigger_error" [pint code] env = trigP now code env := rfl
 theorem proc_inform (n : Nat) : (txMeths c a now rl).proc "self.rate_limiter.inform_byte_sent" [pint n] env =
     .ok (env.set "#rl" (rlPV (rl.inform now n))) := rfl
@@ -707,5 +795,451 @@ theorem standby_agrees (s : State) (env : Env) (allowed : Nat) (hR : Rep env s)
           builtin_len_bytes, evalCmp_le_pint, hle]
       · simpa [standbyM, hs, hle] using hR
       · simp [standbyM, hs, hle]
+
+/-! ## 2. Region `transmit_cf` -/
+
+/-- how a region of the model ends -/
+inductive Outcome where
+  /-- a Python exception escapes from `_process_tx` (`s` = the model's state at that point) -/
+  | raised (s : State) (e : PyExc)
+  /-- `BadGeneratorError` is raised by `consume` -/
+  | badGen (s : State)
+  /-- the region falls through -/
+  | done (s : State) (out : Option CanMsg) (imm : Bool)
+
+/-- the Consecutive Frame, when the payload is not empty (`none` = `ValueError` from `_make_tx_msg`) -/
+def tcfFrame (s : State) (payload : Bytes) : Option (State × Option CanMsg) :=
+  if payload.length > 0 then
+    match makeTxMsg s.cfg s.addr (s.addr.tx.txId .physical) (s.addr.tx.txPrefix ++ [u8 (0x20 + s.txSeq)] ++ payload) with
+    | none => none
+    | some msg =>
+      some ({ s with txSeq := (s.txSeq + 1) % 16, timerStmin := s.timerStmin.startAt s.now,
+                     txBlockCnt := s.txBlockCnt + 1 }, some msg)
+  else some (s, none)
+
+/-- end of transmission / end of block -/
+def tcfTail (s : State) (r' : Req) (rbs : Nat) : State × Bool :=
+  if r'.depleted then
+    if r'.remaining > 0 then ((s.error .BadGenerator).stopSending false, false)
+    else (s.stopSending true, false)
+  else if rbs ≠ 0 && s.txBlockCnt ≥ rbs then (({ s with txState := .waitFc }).startRxFcTimer, true)
+  else (s, false)
+
+/-- `State.transmitCf`, with the way it ends made explicit -/
+def transmitCfR (s : State) (allowed : Nat) : Outcome :=
+  match s.remoteBs, s.active with
+  | none, _ => .raised s .AssertionError
+  | _, none => .raised s .AssertionError
+  | some rbs, some r =>
+    if s.timerStmin.timedOut s.now then
+      let payloadLen := min (s.cfg.txDl - 1 - s.txPrefixLen) r.remaining
+      if payloadLen ≤ allowed then
+        match s.consumeActive r payloadLen false with
+        | (s1, _, none) => .badGen s1
+        | (s1, r', some payload) =>
+          match tcfFrame s1 payload with
+          | none => .raised s1 .ValueError
+          | some (s2, out) => .done (tcfTail s2 r' rbs).1 out (tcfTail s2 r' rbs).2
+      else .done s none false
+    else .done s none false
+
+/-- the model's function in terms of `transmitCfR` (the escaping `BadGeneratorError` is an `AssertionError` there: unreachable,
+    see `transmitCfR_no_badGen`) -/
+theorem transmitCf_eq (s : State) (allowed : Nat) :
+    s.transmitCf allowed =
+      match transmitCfR s allowed with
+      | .raised s' e => (s'.raise e, none, false)
+      | .badGen s' => (s'.raise .AssertionError, none, false)
+      | .done s' out imm => (s', out, imm) := by
+  unfold State.transmitCf transmitCfR
+  cases hb : s.remoteBs <;> cases ha : s.active <;> simp only
+  rename_i rbs r
+  by_cases ht : s.timerStmin.timedOut s.now = true
+  · simp only [ht, if_true]
+    by_cases hp : min (s.cfg.txDl - 1 - s.txPrefixLen) r.remaining ≤ allowed
+    · simp only [hp, if_true]
+      rcases hc : s.consumeActive r (min (s.cfg.txDl - 1 - s.txPrefixLen) r.remaining) false with ⟨s1, r', res⟩
+      cases res with
+      | none => rfl
+      | some payload =>
+        simp only [tcfFrame, tcfTail]
+        by_cases hl : payload.length > 0
+        · simp only [hl, if_true]
+          cases hm : makeTxMsg s1.cfg s1.addr (s1.addr.tx.txId .physical) (s1.addr.tx.txPrefix ++ [u8 (0x20 + s1.txSeq)] ++ payload) with
+          | none => simp
+          | some msg =>
+            simp only [Bool.false_eq_true, if_false]
+            by_cases h1 : r'.depleted = true <;> by_cases h2 : r'.remaining > 0 <;> simp [h1, h2] <;> split <;> rfl
+        · simp only [hl, if_false, Bool.false_eq_true]
+          by_cases h1 : r'.depleted = true <;> by_cases h2 : r'.remaining > 0 <;> simp [h1, h2] <;> split <;> rfl
+    · simp only [hp, if_false]
+  · simp only [ht, if_false, Bool.false_eq_true]
+/-! ### navigation in a dumped block -/
+
+def nth : PBlock → Nat → PStmt
+  | .nil, _ => .pass
+  | .cons s _, 0 => s
+  | .cons _ r, n + 1 => nth r n
+def thenOf : PStmt → PBlock
+  | .ite _ t _ => t
+  | _ => .nil
+def elseOf : PStmt → PBlock
+  | .ite _ _ e => e
+  | _ => .nil
+
+/-! ### value-level lemmas -/
+
+theorem add_bytes (x y : Bytes) : evalBinop .add (.bytes x) (.bytes y) = .ok (.bytes (x ++ y)) := rfl
+
+theorem or_eq_add (a b i : Nat) (ha : a % 2 ^ i = 0) (hb : b < 2 ^ i) : a ||| b = a + b := by
+  have e : a = (a / 2 ^ i) <<< i := by
+    rw [Nat.shiftLeft_eq]
+    have := Nat.div_add_mod a (2 ^ i)
+    rw [ha, Nat.mul_comm] at this
+    omega
+  rw [e, Nat.shiftLeft_add_eq_or_of_lt hb]
+
+/-- `0x20 | seq` for a sequence number below 16 -/
+theorem or32 (n : Nat) (h : n < 16) : 32 ||| n = 32 + n := or_eq_add 32 n 4 (by decide) (by simpa using h)
+
+theorem bytesOfScs_one (n : Nat) (h : n ≤ 255) : bytesOfScs [.py (.int (n : Int))] = .ok [u8 n] := by
+  have h' : (n : Int) ≤ 255 := by omega
+  simp [bytesOfScs, Sc.isInt, Sc.intVal, PyVal.isInt, PyVal.intVal, h', u8]
+
+theorem bytesOfScs_seq (n : Nat) (h : n < 16) : bytesOfScs [.py (.int (32 + (n : Int)))] = .ok [u8 (32 + n)] := by
+  have := bytesOfScs_one (32 + n) (by omega)
+  simpa using this
+
+theorem band15_succ (n : Nat) : evalBinop .band (pint ((n : Int) + 1)) (pint 15) = .ok (pint (((n + 1) % 16 : Nat) : Int)) := by
+  rw [evalBinop_band _ _ (by omega) (by decide)]
+  have : ((n : Int) + 1).toNat = n + 1 := by omega
+  simp [this, and_f]
+
+/-- the `if len(payload) > 0:` statement of the TRANSMIT_CF branch -/
+def tcfFrameStmt : PStmt :=
+  nth (thenOf (nth (thenOf (nth Src.TransportLayerLogic_p_process_tx__transmit_cf 2)) 2)) 1
+/-- the `if ...depleted(): ... elif ...` statement -/
+def tcfTailStmt : PStmt :=
+  nth (thenOf (nth (thenOf (nth Src.TransportLayerLogic_p_process_tx__transmit_cf 2)) 2)) 2
+
+theorem tcf_frame_stmt (s : State) (env : Env) (payload : Bytes) (hR : Rep env s)
+    (hp : env "payload" = some (.bytes payload)) (hseq : s.txSeq < 16) :
+    match tcfFrame s payload with
+    | none => execStmt (txM s) env tcfFrameStmt = .error (.exc .ValueError)
+    | some (s', out) =>
+      ∃ env', execStmt (txM s) env tcfFrameStmt = .ok (.next env') ∧ Rep env' s' ∧
+        (match out with
+         | some m => env' "output_msg" = some (msgPV m)
+         | none => env' "output_msg" = env "output_msg") ∧
+        Frame ["msg_data", "arbitration_id", "output_msg"] env env' := by
+  unfold tcfFrame
+  by_cases hl : payload.length > 0
+  · simp only [hl, if_true]
+    cases hm : makeTxMsg s.cfg s.addr (s.addr.tx.txId .physical) (s.addr.tx.txPrefix ++ [u8 (0x20 + s.txSeq)] ++ payload) with
+    | none =>
+      simp only
+      simp only [List.append_assoc, List.cons_append, List.nil_append] at hm
+      simp [tcfFrameStmt, nth, thenOf, Src.TransportLayerLogic_p_process_tx__transmit_cf, execStmt, execBlock, eval, evalArgs, hp,
+        builtin_len_bytes, evalCmp_gt_pint, hl, bi_none, fn_prefix, fn_bytearray, fn_arb0, fn_make_tx_msg, hR.txSeq,
+        Int.natCast_nonneg, or32 _ hseq, bytesOfScs_seq _ hseq, add_bytes, set_get, hm]
+    | some msg =>
+      simp only
+      simp only [List.append_assoc, List.cons_append, List.nil_append] at hm
+      refine ⟨?e, ?h1, ?h2, ?h3, ?h4⟩
+      case h1 =>
+        simp [tcfFrameStmt, nth, thenOf, Src.TransportLayerLogic_p_process_tx__transmit_cf, execStmt, execBlock, eval, evalArgs, hp,
+          builtin_len_bytes, evalCmp_gt_pint, hl, bi_none, fn_prefix, fn_bytearray, fn_arb0, fn_make_tx_msg, hR.txSeq,
+          Int.natCast_nonneg, or32 _ hseq, bytesOfScs_seq _ hseq, add_bytes, set_get, hm, band15_succ, proc_st_start,
+          hR.txBlockCnt]
+        rfl
+      case h2 =>
+        have := ((((((hR.setOther (k := "msg_data") (by decide) (.bytes (s.addr.tx.txPrefix ++ u8 (32 + s.txSeq) :: payload))).setOther
+          (k := "arbitration_id") (by decide) (pint (s.addr.tx.txId .physical))).setOther (k := "output_msg") (by decide)
+          (msgPV msg)).setTxSeq ((s.txSeq + 1) % 16)).setStStart (some s.now)).setTxBlockCnt (s.txBlockCnt + 1))
+        simpa [optPV, Timer.startAt] using this
+      case h3 => simp [set_get]
+      case h4 =>
+        exact ((((((Frame.refl _ env).set (.inr (by decide)) _).set (.inr (by decide)) _).set (.inr (by decide)) _).set
+          (.inl (by decide)) _).set (.inl (by decide)) _).set (.inl (by decide)) _
+  · simp only [hl, if_false]
+    refine ⟨env, ?_, hR, rfl, Frame.refl _ _⟩
+    simp [tcfFrameStmt, nth, thenOf, Src.TransportLayerLogic_p_process_tx__transmit_cf, execStmt, execBlock, eval, evalArgs, hp,
+      builtin_len_bytes, evalCmp_gt_pint, hl]
+theorem tcf_tail_stmt (s : State) (env : Env) (r' : Req) (rbs : Nat) (hR : Rep env s)
+    (ha : s.active = some r') (hb : s.remoteBs = some rbs) :
+    ∃ env', execStmt (txM s) env tcfTailStmt = .ok (.next env') ∧ Rep env' (tcfTail s r' rbs).1 ∧
+      env' "immediate_rx_msg_required" = (if (tcfTail s r' rbs).2 then some (pbool true) else env "immediate_rx_msg_required") ∧
+      Frame ["immediate_rx_msg_required"] env env' := by
+  have hq := hR.req r' ha
+  have hrb := hR.remoteBs
+  simp only [hb, optPV] at hrb
+  unfold tcfTail
+  by_cases hd : r'.depleted = true
+  · simp only [hd, if_true]
+    by_cases hrem : r'.remaining > 0
+    · simp only [hrem, if_true]
+      have hrem' : r'.consumed < r'.size := by unfold Req.remaining at hrem; omega
+      obtain ⟨env', he, hR', hF⟩ := stopP_rep (hR.error .BadGenerator) false []
+      refine ⟨env', ?_, hR', ?_, ?_⟩
+      · simp [tcfTailStmt, nth, thenOf, Src.TransportLayerLogic_p_process_tx__transmit_cf, execStmt, execBlock, eval, evalArgs,
+          bi_none, fn_depleted, genDepleted_rep hq, hd, fn_remaining, genRemaining_int hq, evalCmp_gt_pint, hrem',
+          fn_err_badgen, proc_trigger, trigP_rep hR, proc_stop, he]
+      · rw [hF _ (by decide) (by simp)]; simp [set_get]
+      · exact ((Frame.refl _ env).set (.inl (by decide)) _).trans (hF.mono (by simp))
+    · simp only [hrem, if_false]
+      have hrem' : ¬ r'.consumed < r'.size := by unfold Req.remaining at hrem; omega
+      obtain ⟨env', he, hR', hF⟩ := stopP_rep hR true []
+      refine ⟨env', ?_, hR', ?_, hF.mono (by simp)⟩
+      · simp [tcfTailStmt, nth, thenOf, Src.TransportLayerLogic_p_process_tx__transmit_cf, execStmt, execBlock, eval, evalArgs,
+          bi_none, fn_depleted, genDepleted_rep hq, hd, fn_remaining, genRemaining_int hq, evalCmp_gt_pint, hrem',
+          proc_stop, he]
+      · rw [hF _ (by decide) (by simp)]; simp
+  · simp only [hd, if_false, Bool.false_eq_true]
+    by_cases hc : (rbs ≠ 0 && decide (s.txBlockCnt ≥ rbs)) = true
+    · simp only [hc, if_true]
+      simp only [Bool.and_eq_true, decide_eq_true_eq] at hc
+      refine ⟨?e, ?h1, ?h2, ?h3, ?h4⟩
+      case h1 =>
+        simp [tcfTailStmt, nth, thenOf, Src.TransportLayerLogic_p_process_tx__transmit_cf, execStmt, execBlock, eval, evalArgs,
+          bi_none, fn_depleted, genDepleted_rep hq, hd, hrb, hR.txBlockCnt, evalCmp_ge_pint, hc.1, hc.2, hR.consts.waitFc,
+          proc_start_fc, set_get]
+        rfl
+      case h2 =>
+        exact ((hR.setTxState .waitFc).setOther (k := "immediate_rx_msg_required") (by decide) (pbool true)).startFc
+      case h3 => simp [set_get]
+      case h4 =>
+        exact ((((Frame.refl _ env).set (.inl (by decide)) _).set (.inr (by decide)) _).set (.inl (by decide)) _).set
+          (.inl (by decide)) _
+    · simp only [hc, if_false, Bool.false_eq_true]
+      simp only [Bool.and_eq_true, decide_eq_true_eq, not_and] at hc
+      refine ⟨env, ?_, hR, by simp, Frame.refl _ _⟩
+      by_cases h0 : rbs = 0
+      · simp [tcfTailStmt, nth, thenOf, Src.TransportLayerLogic_p_process_tx__transmit_cf, execStmt, execBlock, eval, evalArgs,
+          bi_none, fn_depleted, genDepleted_rep hq, hd, hrb, h0]
+      · have := hc (by simpa using h0)
+        simp [tcfTailStmt, nth, thenOf, Src.TransportLayerLogic_p_process_tx__transmit_cf, execStmt, execBlock, eval, evalArgs,
+          bi_none, fn_depleted, genDepleted_rep hq, hd, hrb, h0, hR.txBlockCnt, evalCmp_ge_pint, this]
+/-! ### stepping through a block -/
+
+theorem cons_next {M : Meths} {env env' : Env} {s : PStmt} {rest : PBlock}
+    (h : execStmt M env s = .ok (.next env')) : execBlock M env (.cons s rest) = execBlock M env' rest := by
+  simp only [execBlock, h, ok_bind]
+theorem cons_err {M : Meths} {env : Env} {s : PStmt} {rest : PBlock} {e : PErr}
+    (h : execStmt M env s = .error e) : execBlock M env (.cons s rest) = .error e := by
+  simp only [execBlock, h, error_bind]
+theorem cons_ret {M : Meths} {env env' : Env} {s : PStmt} {rest : PBlock} {v : PV}
+    (h : execStmt M env s = .ok (.returned v env')) : execBlock M env (.cons s rest) = .ok (.returned v env') := by
+  simp only [execBlock, h, ok_bind]
+theorem block_nil (M : Meths) (env : Env) : execBlock M env .nil = .ok (.next env) := by simp only [execBlock]
+theorem block_single (M : Meths) (env : Env) (s : PStmt) : execBlock M env (.cons s .nil) = execStmt M env s := by
+  simp only [execBlock]
+  cases execStmt M env s with
+  | error e => rfl
+  | ok f => cases f <;> rfl
+theorem ite_true {M : Meths} {env : Env} {c : PExpr} {t e : PBlock} {v : PV}
+    (hc : eval M env c = .ok v) (ht : truthy v = .ok true) : execStmt M env (.ite c t e) = execBlock M env t := by
+  simp only [execStmt, hc, ok_bind, ht, if_true]
+theorem ite_false {M : Meths} {env : Env} {c : PExpr} {t e : PBlock} {v : PV}
+    (hc : eval M env c = .ok v) (ht : truthy v = .ok false) : execStmt M env (.ite c t e) = execBlock M env e := by
+  simp only [execStmt, hc, ok_bind, ht, Bool.false_eq_true, if_false]
+
+def condOf : PStmt → PExpr
+  | .ite c _ _ => c
+  | _ => .none
+
+theorem txM_eq {s s' : State} (h1 : s'.cfg = s.cfg) (h2 : s'.addr = s.addr) (h3 : s'.now = s.now) (h4 : s'.rl = s.rl) :
+    txM s' = txM s := by
+  unfold txM; rw [h1, h2, h3, h4]
+
+theorem consumeActive_spec (s : State) (r : Req) (n : Nat) (e : Bool) :
+    (s.consumeActive r n e).2.1 = (r.consume n e).1 ∧ (s.consumeActive r n e).2.2 = (r.consume n e).2 ∧
+    (s.consumeActive r n e).1.active = some (r.consume n e).1 ∧
+    (s.consumeActive r n e).1.cfg = s.cfg ∧ (s.consumeActive r n e).1.addr = s.addr ∧ (s.consumeActive r n e).1.now = s.now ∧
+    (s.consumeActive r n e).1.rl = s.rl ∧ (s.consumeActive r n e).1.txSeq = s.txSeq ∧
+    (s.consumeActive r n e).1.remoteBs = s.remoteBs ∧ (s.consumeActive r n e).1.txState = s.txState ∧
+    (s.consumeActive r n e).1.txFrameLen = s.txFrameLen := by
+  unfold State.consumeActive
+  simp only
+  split <;> simp [State.emit]
+
+theorem min_builtin (x y : Nat) : evalBuiltin "min" [pint x, pint y] = some (.ok (pint (min x y : Nat))) := by
+  have e : evalBuiltin "min" [pint x, pint y] = some (.ok (if (y : Int) < x then pint y else pint x)) := rfl
+  rw [e]; congr 2
+  by_cases h : (y : Int) < x
+  · rw [if_pos h]; congr 3; omega
+  · rw [if_neg h]; congr 3; omega
+
+/-- a request that has not over-consumed never raises `BadGeneratorError` on an inexact read within the remaining size -/
+theorem consume_inexact_some (r : Req) (n : Nat) (hn : n ≤ r.remaining) (hle : r.consumed ≤ r.size) :
+    ∃ d, (r.consume n false).2 = some d := by
+  unfold Req.consume Req.remaining at *
+  simp only
+  have : (List.take n r.src).length ≤ n := by simp [List.length_take]; omega
+  split
+  · omega
+  · split <;> exact ⟨_, rfl⟩
+theorem tcfFrame_spec {s s2 : State} {p : Bytes} {out : Option CanMsg} (h : tcfFrame s p = some (s2, out)) :
+    s2.active = s.active ∧ s2.remoteBs = s.remoteBs ∧ s2.cfg = s.cfg ∧ s2.addr = s.addr ∧ s2.now = s.now ∧ s2.rl = s.rl := by
+  unfold tcfFrame at h
+  split at h
+  · split at h
+    · cases h
+    · simp only [Option.some.injEq, Prod.mk.injEq] at h
+      obtain ⟨rfl, -⟩ := h
+      exact ⟨rfl, rfl, rfl, rfl, rfl, rfl⟩
+  · simp only [Option.some.injEq, Prod.mk.injEq] at h
+    obtain ⟨rfl, -⟩ := h
+    exact ⟨rfl, rfl, rfl, rfl, rfl, rfl⟩
+
+abbrev TCF : PBlock := Src.TransportLayerLogic_p_process_tx__transmit_cf
+/-- body of `if self.timer_tx_stmin.is_timed_out():` -/
+def tcfA : PBlock := thenOf (nth TCF 2)
+/-- body of `if payload_length <= allowed_bytes:` -/
+def tcfG : PBlock := thenOf (nth tcfA 2)
+
+theorem tcf_shape : TCF = .cons (nth TCF 0) (.cons (nth TCF 1) (.cons (.ite (condOf (nth TCF 2)) tcfA .nil) .nil)) := rfl
+theorem tcfA_shape : tcfA = .cons (nth tcfA 0) (.cons (nth tcfA 1)
+    (.cons (.ite (condOf (nth tcfA 2)) tcfG (.cons .pass .nil)) .nil)) := rfl
+theorem tcfG_shape : tcfG = .cons (nth tcfG 0) (.cons tcfFrameStmt (.cons tcfTailStmt .nil)) := rfl
+
+/-- the locals the region writes -/
+def tcfLocals : List String :=
+  ["data_length", "payload_length", "payload", "msg_data", "arbitration_id", "output_msg", "immediate_rx_msg_required"]
+
+theorem transmit_cf_agrees (s : State) (env : Env) (allowed : Nat) (hR : Rep env s)
+    (hal : env "allowed_bytes" = some (pint allowed))
+    (ho : env "output_msg" = some pnone) (hi : env "immediate_rx_msg_required" = some (pbool false))
+    (hseq : s.txSeq < 16) (hdl : 1 + s.txPrefixLen ≤ s.cfg.txDl)
+    (hinv : ∀ r, s.active = some r → r.consumed ≤ r.size) :
+    match transmitCfR s allowed with
+    | .raised _ e => execBlock (txM s) env TCF = .error (.exc e)
+    | .badGen _ => False
+    | .done s' out imm =>
+      ∃ env', execBlock (txM s) env TCF = .ok (.next env') ∧ Rep env' s' ∧
+        env' "output_msg" = some (optMsgPV out) ∧ env' "immediate_rx_msg_required" = some (pbool imm) ∧
+        Frame tcfLocals env env' := by
+  unfold transmitCfR
+  rw [tcf_shape]
+  cases hb : s.remoteBs with
+  | none =>
+    simp only
+    have h0 : execStmt (txM s) env (nth TCF 0) = .error (.exc .AssertionError) := by
+      simp [TCF, nth, Src.TransportLayerLogic_p_process_tx__transmit_cf, execStmt, eval, hR.remoteBs, hb, optPV]
+    rw [cons_err h0]
+  | some rbs =>
+    have hrb := hR.remoteBs
+    simp only [hb, optPV] at hrb
+    have h0 : execStmt (txM s) env (nth TCF 0) = .ok (.next env) := by
+      simp [TCF, nth, Src.TransportLayerLogic_p_process_tx__transmit_cf, execStmt, eval, hrb]
+    rw [cons_next h0]
+    cases ha : s.active with
+    | none =>
+      simp only
+      have h1 : execStmt (txM s) env (nth TCF 1) = .error (.exc .AssertionError) := by
+        simp [TCF, nth, Src.TransportLayerLogic_p_process_tx__transmit_cf, execStmt, eval, hR.active, ha, objPV]
+      rw [cons_err h1]
+    | some r =>
+      simp only
+      have hq := hR.req r ha
+      have hle := hinv r ha
+      have h1 : execStmt (txM s) env (nth TCF 1) = .ok (.next env) := by
+        simp [TCF, nth, Src.TransportLayerLogic_p_process_tx__transmit_cf, execStmt, eval, hR.active, ha, objPV]
+      rw [cons_next h1, block_single]
+      have hc : eval (txM s) env (condOf (nth TCF 2)) = .ok (pbool (s.timerStmin.timedOut s.now)) := by
+        simp [TCF, nth, condOf, Src.TransportLayerLogic_p_process_tx__transmit_cf, eval, evalArgs, bi_none, fn_st_timed_out,
+          hR.stStart, hR.stTo, timedOutP_timer]
+      by_cases ht : s.timerStmin.timedOut s.now = true
+      · rw [ite_true hc (by simp [ht])]
+        simp only [ht, if_true]
+        rw [tcfA_shape]
+        -- data_length, payload_length
+        have hA0 : execStmt (txM s) env (nth tcfA 0) =
+            .ok (.next (env.set "data_length" (pint ((s.cfg.txDl - 1 - s.txPrefixLen : Nat) : Int)))) := by
+          have e : ((s.cfg.txDl : Int) - 1 - (s.addr.tx.txPrefix.length : Int)) = ((s.cfg.txDl - 1 - s.txPrefixLen : Nat) : Int) := by
+            unfold State.txPrefixLen at *; omega
+          simp [tcfA, TCF, nth, thenOf, Src.TransportLayerLogic_p_process_tx__transmit_cf, execStmt, eval, evalArgs, hR.txDl,
+            bi_none, fn_prefix, builtin_len_bytes, e]
+        rw [cons_next hA0]
+        have R1 := hR.setOther (k := "data_length") (by decide) (pint ((s.cfg.txDl - 1 - s.txPrefixLen : Nat) : Int))
+        have hA1 : execStmt (txM s) (env.set "data_length" (pint ((s.cfg.txDl - 1 - s.txPrefixLen : Nat) : Int))) (nth tcfA 1) =
+            .ok (.next ((env.set "data_length" (pint ((s.cfg.txDl - 1 - s.txPrefixLen : Nat) : Int))).set "payload_length"
+              (pint ((min (s.cfg.txDl - 1 - s.txPrefixLen) r.remaining : Nat) : Int)))) := by
+          simp only [tcfA, TCF, nth, thenOf, Src.TransportLayerLogic_p_process_tx__transmit_cf, execStmt, eval, evalArgs, ok_bind,
+            set_get, if_true, bi_none _ _ (by decide : "self.active_send_request.generator.remaining_size" ∉ _), fn_remaining,
+            genRemaining_rep (R1.req r ha) hle, min_builtin]
+        rw [cons_next hA1, block_single]
+        have R2 := R1.setOther (k := "payload_length") (by decide)
+          (pint ((min (s.cfg.txDl - 1 - s.txPrefixLen) r.remaining : Nat) : Int))
+        generalize hn : min (s.cfg.txDl - 1 - s.txPrefixLen) r.remaining = n at *
+        generalize he2 : (env.set "data_length" (pint ((s.cfg.txDl - 1 - s.txPrefixLen : Nat) : Int))).set "payload_length"
+          (pint (n : Int)) = env2 at *
+        have hF2 : Frame ["data_length", "payload_length"] env env2 := by
+          rw [← he2]
+          exact ((Frame.refl _ env).set (.inr (by decide)) _).set (.inr (by decide)) _
+        have hpl : env2 "payload_length" = some (pint n) := by rw [← he2]; simp [set_get]
+        have hal2 : env2 "allowed_bytes" = some (pint allowed) := by
+          rw [hF2 _ (by decide) (by decide)]; exact hal
+        have ho2 : env2 "output_msg" = some pnone := by rw [hF2 _ (by decide) (by decide)]; exact ho
+        have hi2 : env2 "immediate_rx_msg_required" = some (pbool false) := by rw [hF2 _ (by decide) (by decide)]; exact hi
+        have hc2 : eval (txM s) env2 (condOf (nth tcfA 2)) = .ok (pbool (decide (n ≤ allowed))) := by
+          simp [tcfA, TCF, nth, condOf, thenOf, Src.TransportLayerLogic_p_process_tx__transmit_cf, eval, hpl, hal2, evalCmp_le_pint]
+        by_cases hp : n ≤ allowed
+        · rw [ite_true hc2 (by simp [hp])]
+          simp only [hp, if_true]
+          rw [tcfG_shape]
+          obtain ⟨c1, c2, c3, c4, c5, c6, c7, c8, c9, -, -⟩ := consumeActive_spec s r n false
+          have hnr : n ≤ r.remaining := by rw [← hn]; exact Nat.min_le_right _ _
+          obtain ⟨data, hdata⟩ := consume_inexact_some r n hnr hle
+          rcases hca : s.consumeActive r n false with ⟨s1, r', res⟩
+          rw [hca] at c1 c2 c3 c4 c5 c6 c7 c8 c9
+          simp only at c1 c2 c3 c4 c5 c6 c7 c8 c9
+          rw [hdata] at c2
+          subst c2
+          simp only
+          -- consume
+          obtain ⟨env3, he3, R3, hp3, hF3⟩ := consumeP_some R2 ha n false data hdata
+          rw [hca] at R3
+          simp only at R3
+          have hG0 : execStmt (txM s) env2 (nth tcfG 0) = .ok (.next env3) := by
+            simp [tcfG, tcfA, TCF, nth, thenOf, Src.TransportLayerLogic_p_process_tx__transmit_cf, execStmt, eval, evalArgs, hpl,
+              bi_none, proc_consume, he3]
+          rw [cons_next hG0]
+          have hM1 : txM s1 = txM s := txM_eq c4 c5 c6 c7
+          have hfr := tcf_frame_stmt s1 env3 data R3 hp3 (by rw [c8]; exact hseq)
+          rw [hM1] at hfr
+          cases hfm : tcfFrame s1 data with
+          | none =>
+            rw [hfm] at hfr
+            simp only at hfr ⊢
+            rw [cons_err hfr]
+          | some p =>
+            obtain ⟨s2, out⟩ := p
+            rw [hfm] at hfr
+            simp only at hfr ⊢
+            obtain ⟨env4, he4, R4, ho4, hF4⟩ := hfr
+            rw [cons_next he4, block_single]
+            obtain ⟨d1, d2, d3, d4, d5, d6⟩ := tcfFrame_spec hfm
+            have hM2 : txM s2 = txM s := txM_eq (d3.trans c4) (d4.trans c5) (d5.trans c6) (d6.trans c7)
+            obtain ⟨env5, he5, R5, hi5, hF5⟩ := tcf_tail_stmt s2 env4 r' rbs R4 (by rw [d1, c3, c1]) (by rw [d2, c9, hb])
+            rw [hM2] at he5
+            have ho3 : env3 "output_msg" = some pnone := by rw [hF3 _ (by decide) (by decide)]; exact ho2
+            have hi3 : env3 "immediate_rx_msg_required" = some (pbool false) := by rw [hF3 _ (by decide) (by decide)]; exact hi2
+            have hi4 : env4 "immediate_rx_msg_required" = some (pbool false) := by rw [hF4 _ (by decide) (by decide)]; exact hi3
+            refine ⟨env5, he5, R5, ?_, ?_, ?_⟩
+            · rw [hF5 _ (by decide) (by decide)]
+              cases out with
+              | none => simp only at ho4; rw [ho4, ho3]; rfl
+              | some m => simp only at ho4; rw [ho4]; rfl
+            · rw [hi5]
+              split <;> simp_all
+            · exact (((hF2.mono (by simp [tcfLocals])).trans (hF3.mono (by simp [tcfLocals]))).trans
+                (hF4.mono (by simp [tcfLocals]))).trans (hF5.mono (by simp [tcfLocals]))
+        · rw [ite_false hc2 (by simp [hp])]
+          simp only [hp, if_false]
+          refine ⟨env2, ?_, R2, ho2, hi2, hF2.mono (by simp [tcfLocals])⟩
+          simp [execBlock, execStmt]
+      · rw [ite_false hc (by simp [ht])]
+        simp only [ht, if_false, Bool.false_eq_true]
+        exact ⟨env, block_nil _ _, hR, ho, hi, Frame.refl _ _⟩
 
 end Isotp.PyAgree.Tx
